@@ -1449,6 +1449,7 @@ theorem data_startTop {s : St} (hfd : ∀ e, s.nextEnt ≤ e → s.alive e = fal
   case frameEnd =>
     refine simple _ [.gc, .poll] (DQ.of_same ⟨rfl, rfl, rfl⟩) rfl (by simp [St.push, St.emit, hst]) ?_ rfl
     intro g hg; simp at hg; rcases hg with rfl | rfl <;> exact ⟨noData_of_notBatch (by nb), trivial⟩
+  case clearTrackers => exact simple _ [] (DQ.of_same ⟨rfl, rfl, rfl⟩) rfl (by simp [St.emit, hst]) framesQuiet_nil rfl
   case wSysEvent sys ty pid =>
     simp only [applyCmd]
     refine simple _ [.runnerStart sys (.sysEv s.nextEnt)] ?_ (by simp [St.push, St.emit, St.fresh])
